@@ -198,8 +198,13 @@ def check_cfg(F, R, cfg):
                 r2 = buf_range(fv, ops[prefix_i])
                 good = r1 == (0, 32) and r2 == (32, 64)
                 msg = "scalar <- reduce(clamp(bytes[0..32])), hash_prefix <- bytes[32..64]" if good else "halves are %s / %s, expected (0,32) / (32,64)" % (r1, r2)
-        if not good and sem_sign_ok(F):
-            good, msg = True, "structural form not recognised; decided by C08.sem.sign: a = clamp(H(seed)[0..32]) mod l, prefix = H(seed)[32..64]"
+        import sig_rules as SR_
+        st_fb, msg_fb = SR_.expanded_from_bytes_rule(F)
+        if st_fb == "ok":
+            good, msg = True, msg_fb + " (decided on 64 symbolic bytes)"
+        elif st_fb == "viol":
+            good, msg = False, msg_fb
+        # (the signing-path rule C08.sem.sign does not imply this one: hazmat users call from_bytes directly - round-6 seed C08.6)
         (R.ok if good else R.viol)("C08.expand.clamp", I("ExpandedSecretKey::from_bytes"), msg, *(() if good else (fv.loc(),)))
 
     # ------------------------------------------------------------------ SigningKey construction
